@@ -112,13 +112,13 @@ type tlsaRec struct {
 func (r tlsaRec) String() string { return fmt.Sprintf("%d %d %d <%s>", r.Usage, r.Sel, r.MT, r.Data) }
 
 type mxFacts struct {
-	Name     string `json:"name"`
-	Pref     uint16 `json:"pref"`
-	Down     bool   `json:"down,omitempty"` // connection refused
+	Name string `json:"name"`
+	Pref uint16 `json:"pref"`
+	Down bool   `json:"down,omitempty"` // connection refused
 	// Greet: "" (normal 220) | "drop" (accepts, then closes before the greeting)
 	// | "421" | "554" (refusing greeting). The MX is unusable, but only after the
 	// MX-level policies were evaluated for it.
-	Greet string `json:"greeting,omitempty"`
+	Greet    string `json:"greeting,omitempty"`
 	StartTLS string `json:"starttls"` // ok | none | handshake | reply454
 	Cert     string `json:"cert"`     // valid | selfsigned | wrongname | expired
 	ReqTLS   bool   `json:"advertises_requiretls"`
@@ -134,8 +134,103 @@ type mxFacts struct {
 	CNAME    bool `json:"mx_host_is_cname,omitempty"`
 	STSMatch bool `json:"sts_match"`
 	DotCode  int  `json:"dot_code"`
-	idx      int
+	// Stages: what this MX answers at the protocol stages other than the
+	// greeting, STARTTLS and the final dot (see stageScripts).
+	Stages stageScripts `json:"stage_scripts"`
+	// FlakyFirst: the first n connections to this MX are greeted with 421 and
+	// dropped (availability only; the security facts of the MX do not change).
+	FlakyFirst int `json:"first_connections_greeted_421,omitempty"`
+	idx        int
 }
+
+// stageScripts: per-MX misbehaviour at the stages an attempt passes through
+// after (or instead of) a successful transaction - in particular the stages a
+// connection goes through when it is given up: QUIT after a failed policy
+// check, RSET/NOOP (the pool's usability probe), MAIL/RCPT/DATA refusals (the
+// connection is closed with QUIT afterwards), EHLO after STARTTLS (falls back
+// to plaintext). Kinds: "" (conforming reply) | "<code>-open" (that reply, the
+// TCP connection stays open) | "<code>-close" (that reply, then the server
+// closes) | "drop" (closes without a reply) | "garbage" (a line that is no
+// SMTP reply, connection stays open) | "ignored" (no reply at all, the
+// connection stays open and later commands are answered).
+type stageScripts struct {
+	Quit    string `json:"quit,omitempty"`
+	Rset    string `json:"rset_noop,omitempty"`
+	Mail    string `json:"mail,omitempty"`
+	Rcpt    string `json:"rcpt,omitempty"`
+	DataCmd string `json:"data_cmd,omitempty"`
+	EhloTLS string `json:"ehlo_after_starttls,omitempty"`
+	NoEHLO  bool   `json:"ehlo_not_implemented,omitempty"`
+}
+
+func (s stageScripts) any() bool { return s != stageScripts{} }
+
+func (s stageScripts) String() string {
+	if !s.any() {
+		return "-"
+	}
+	return fmt.Sprintf("quit=%s,rset=%s,mail=%s,rcpt=%s,data=%s,ehlotls=%s,noehlo=%v", s.Quit, s.Rset, s.Mail, s.Rcpt, s.DataCmd, s.EhloTLS, s.NoEHLO)
+}
+
+var (
+	quitKinds    = []string{"421-open", "421-close", "drop", "garbage", "500-open", "451-open", "554-close"}
+	quitWeights  = []int{35, 15, 15, 10, 10, 5, 10}
+	rsetKinds    = []string{"421-open", "421-close", "drop", "garbage", "500-open", "451-open"}
+	mailKinds    = []string{"451-open", "550-open", "421-open", "421-close", "drop"}
+	rcptKinds    = []string{"451-open", "550-open", "421-open", "421-close"}
+	dataCmdKinds = []string{"451-open", "554-open", "421-close", "drop"}
+	ehloTLSKinds = []string{"421-close", "554-open", "500-open", "drop"}
+)
+
+// genStages draws the stage scripts of one MX (own PRNG stream).
+func genStages(p *prng.R, starttls string) stageScripts {
+	var s stageScripts
+	if p.Chance(30, 100) {
+		s.Quit = quitKinds[p.Weighted(quitWeights)]
+	}
+	if p.Chance(10, 100) {
+		s.Rset = rsetKinds[p.Intn(len(rsetKinds))]
+	}
+	if p.Chance(6, 100) {
+		s.Mail = mailKinds[p.Intn(len(mailKinds))]
+	}
+	if p.Chance(5, 100) {
+		s.Rcpt = rcptKinds[p.Intn(len(rcptKinds))]
+	}
+	if p.Chance(4, 100) {
+		s.DataCmd = dataCmdKinds[p.Intn(len(dataCmdKinds))]
+	}
+	if starttls == "ok" && p.Chance(6, 100) {
+		s.EhloTLS = ehloTLSKinds[p.Intn(len(ehloTLSKinds))]
+	}
+	s.NoEHLO = p.Chance(3, 100)
+	return s
+}
+
+// stageAction translates a script kind into the scripted server's action.
+func stageAction(kind string) *smtpd.Action {
+	switch kind {
+	case "":
+		return nil
+	case "drop":
+		return &smtpd.Action{DropBefore: true}
+	case "garbage":
+		return &smtpd.Action{Raw: []byte("* BYE and thanks for all the fish\r\n")}
+	case "ignored":
+		// nothing is written and the connection stays open; later commands are served
+		return &smtpd.Action{Raw: []byte{}}
+	}
+	var code int
+	var mode string
+	if _, err := fmt.Sscanf(kind, "%3d-%s", &code, &mode); err != nil {
+		panic("c05: bad stage script kind " + kind)
+	}
+	a := &smtpd.Action{Code: code, Enh: fmt.Sprintf("%d.3.2", code/100), Text: []string{"scripted reply"}, DropAfter: mode == "close"}
+	return a
+}
+
+// offersReqTLS: the REQUIRETLS keyword reaches the client (no EHLO = no keywords).
+func (m *mxFacts) offersReqTLS() bool { return m.ReqTLS && !m.Stages.NoEHLO }
 
 type msgFlags struct {
 	Req  bool `json:"requiretls"`
@@ -143,6 +238,14 @@ type msgFlags struct {
 	Quar bool `json:"quarantine"`
 	// Rcpts: recipient domains (indices into scenario.Domains) in RCPT order; nil = [0].
 	Rcpts []int `json:"rcpt_domains,omitempty"`
+	// Group Q only (the message enters through a pipeline and a queue):
+	// QuarBy = what quarantines it (a check at some stage / the DMARC policy),
+	// OvrAt = when the endpoint's TLS-Required: No fact is put into the
+	// metadata ("before-start" | "before-body" = at DATA, as endpoint/smtp does),
+	// NRcpt = number of recipients (all in domain 0).
+	QuarBy string `json:"quarantined_by,omitempty"`
+	OvrAt  string `json:"tls_required_no_set,omitempty"`
+	NRcpt  int    `json:"recipients,omitempty"`
 }
 
 func (f msgFlags) rcpts() []int {
@@ -224,7 +327,9 @@ func genMX(p *prng.R, dom, i int, pref uint16) mxFacts {
 	m.STSMatch = p.Chance(70, 100)
 	m.DotCode = []int{250, 451, 554}[p.Weighted([]int{90, 5, 5})]
 	// (own stream: the other draws stay what they were before this fact existed)
-	m.CNAME = prng.New(p.Uint64(), uint64(dom*2+i), "c05-mx-cname").Chance(22, 100)
+	sub := p.Uint64()
+	m.CNAME = prng.New(sub, uint64(dom*2+i), "c05-mx-cname").Chance(22, 100)
+	m.Stages = genStages(prng.New(sub, uint64(dom*2+i), "c05-mx-stages"), m.StartTLS)
 	return m
 }
 
@@ -497,7 +602,7 @@ func (sc *scenario) allowed(f msgFlags, d *domainFacts, m *mxFacts, tlsOn bool, 
 		if mxLevel < 1 {
 			unsat = append(unsat, "requiretls-mx-not-authenticated")
 		}
-		if !sc.Relaxed && !m.ReqTLS {
+		if !sc.Relaxed && !m.offersReqTLS() {
 			unsat = append(unsat, "requiretls-not-offered-by-mx(strict)")
 		}
 	}
@@ -540,6 +645,29 @@ type world struct {
 	tgt     *remote.Target
 	logMu   sync.Mutex
 	logs    []string
+	logN    int // log lines seen (progress measure for quiescence watchdogs)
+}
+
+// logger returns a maddy logger that feeds the witness log.
+func (w *world) logger(name string) log.Logger {
+	return log.Logger{Name: name, Debug: true, Out: log.FuncOutput(func(_ time.Time, debug bool, s string) {
+		w.logMu.Lock()
+		w.logN++
+		if len(w.logs) < 400 {
+			w.logs = append(w.logs, strings.TrimSuffix(s, "\n"))
+		}
+		w.logMu.Unlock()
+	}, func() error { return nil })}
+}
+
+func (w *world) witnessLog() []string {
+	w.logMu.Lock()
+	lg := append([]string(nil), w.logs...)
+	w.logMu.Unlock()
+	if len(lg) > 120 {
+		lg = lg[len(lg)-120:]
+	}
+	return lg
 }
 
 func (w *world) close() {
@@ -612,7 +740,7 @@ func buildWorld(sc *scenario) (*world, error) {
 				}
 				zones[tn] = mockdns.Zone{AD: m.TLSAAD, Misc: map[miekgdns.Type][]miekgdns.RR{miekgdns.Type(miekgdns.TypeTLSA): rrs}}
 			}
-			cfg := smtpd.Config{Hostname: m.Name, PIPELINING: true, EightBitMIME: true, REQUIRETLS: m.ReqTLS}
+			cfg := smtpd.Config{Hostname: m.Name, PIPELINING: true, EightBitMIME: true, REQUIRETLS: m.ReqTLS, NoEHLO: m.Stages.NoEHLO}
 			if m.StartTLS != "none" {
 				cfg.STARTTLS = true
 				crt := p.mx[m.idx].certs[m.Cert]
@@ -623,7 +751,28 @@ func buildWorld(sc *scenario) (*world, error) {
 			}
 			dot := m.DotCode
 			greet := m.Greet
+			stages := m.Stages
+			flaky := m.FlakyFirst
 			cfg.Script = func(ev smtpd.Event) *smtpd.Action {
+				if ev.Stage == smtpd.StageConnect && ev.Conn <= flaky {
+					return &smtpd.Action{Code: 421, Enh: "4.3.2", Text: []string{"try again later"}, DropAfter: true}
+				}
+				switch ev.Stage {
+				case smtpd.StageQuit:
+					return stageAction(stages.Quit)
+				case smtpd.StageRset, smtpd.StageNoop:
+					return stageAction(stages.Rset)
+				case smtpd.StageMail:
+					return stageAction(stages.Mail)
+				case smtpd.StageRcpt:
+					return stageAction(stages.Rcpt)
+				case smtpd.StageData:
+					return stageAction(stages.DataCmd)
+				case smtpd.StageEHLO:
+					if ev.TLS {
+						return stageAction(stages.EhloTLS)
+					}
+				}
 				if ev.Stage == smtpd.StageConnect && greet != "" {
 					switch greet {
 					case "drop":
@@ -674,13 +823,7 @@ func buildWorld(sc *scenario) (*world, error) {
 	extR.Cfg.Servers = []string{addr.IP.String()}
 	extR.Cfg.Port = strconv.Itoa(addr.Port)
 
-	lg := log.Logger{Name: "remote", Debug: true, Out: log.FuncOutput(func(_ time.Time, debug bool, s string) {
-		w.logMu.Lock()
-		if len(w.logs) < 400 {
-			w.logs = append(w.logs, strings.TrimSuffix(s, "\n"))
-		}
-		w.logMu.Unlock()
-	}, func() error { return nil })}
+	lg := w.logger("remote")
 
 	var pols []module.MXAuthPolicy
 	if sc.MTASTS {
@@ -977,6 +1120,93 @@ func (w *world) dataEvents(caseIdx int) (evs []dataEvent, problems []string) {
 	return
 }
 
+// judgeDataEvents applies rule 1 to every payload a scripted MX received.
+func judgeDataEvents(r *rep.Reporter, c *rep.Case, sc *scenario, evs []dataEvent, suffix func(f msgFlags) string, witness func() map[string]any) {
+	for _, ev := range evs {
+		r.Count("data_events", 1)
+		if ev.TLS {
+			r.Count("data_events_over_tls", 1)
+		} else {
+			r.Count("data_events_plaintext", 1)
+		}
+		origin := connOrigin(sc, ev)
+		if origin != "fresh-connection" {
+			r.Count("data_events_on_reused_connection", 1)
+		}
+		f := sc.Msgs[ev.Msg]
+		r.Distinct("data_event_kinds", fmt.Sprintf("%s tls=%v %s", f.String(), ev.TLS, origin))
+		if len(ev.Unsat) == 0 {
+			continue
+		}
+		tl := "plaintext"
+		if ev.TLS {
+			tl = "tls"
+		}
+		sig := fmt.Sprintf("content-sent-over-forbidden-connection/%s/%s/%s/msg=%s%s", ev.Unsat[0], tl, origin, f.String(), suffix(f))
+		c.Violation(sig, fmt.Sprintf("content of message %d (%s) reached %s over a %s connection (%s) although the policy in force is not satisfied: %v",
+			ev.Msg, f.String(), ev.MX, tl, origin, ev.Unsat), witness())
+	}
+}
+
+type mxTranscript struct {
+	m     *mxFacts
+	conns []smtpd.ConnRecord
+}
+
+func (w *world) transcripts() []mxTranscript {
+	var out []mxTranscript
+	for _, sr := range w.servers {
+		out = append(out, mxTranscript{&w.sc.Domains[sr.dom].MXs[sr.mx], sr.srv.Transcript()})
+	}
+	return out
+}
+
+// stageCounters records which scripted stage behaviours the target actually
+// ran into, and in particular how often a connection that never got a MAIL
+// command (given up after the policy checks) was answered a scripted QUIT.
+func stageCounters(r *rep.Reporter, sc *scenario, ts []mxTranscript) {
+	for _, t := range ts {
+		st := t.m.Stages
+		for _, c := range t.conns {
+			for _, cmd := range c.Commands {
+				kind := ""
+				switch cmd.Stage {
+				case smtpd.StageQuit:
+					kind = st.Quit
+					if kind != "" && len(c.Txns) == 0 {
+						r.Count("connection_given_up_before_mail_and_quit_scripted/"+kind, 1)
+						if !strings.HasSuffix(kind, "-close") && kind != "drop" {
+							r.Count("connection_given_up_before_mail_and_left_open_by_the_peer_at_quit", 1)
+						}
+					}
+				case smtpd.StageRset, smtpd.StageNoop:
+					kind = st.Rset
+				case smtpd.StageMail:
+					kind = st.Mail
+				case smtpd.StageRcpt:
+					kind = st.Rcpt
+				case smtpd.StageData:
+					kind = st.DataCmd
+				case smtpd.StageEHLO:
+					if cmd.TLS {
+						kind = st.EhloTLS
+					}
+					if st.NoEHLO && !cmd.TLS {
+						kind = "ehlo-not-implemented"
+					}
+				}
+				if kind != "" {
+					r.Count("scripted_stage_reached/"+string(cmd.Stage)+"="+kind, 1)
+					r.Count("scripted_stage_reached_total/"+string(cmd.Stage), 1)
+				}
+			}
+			if c.ID <= t.m.FlakyFirst {
+				r.Count("connections_greeted_421_first(flaky MX)", 1)
+			}
+		}
+	}
+}
+
 func connOrigin(sc *scenario, ev dataEvent) string {
 	if ev.OpenedBy == ev.Msg || ev.OpenedBy < 0 || ev.OpenedBy >= len(sc.Msgs) {
 		return "fresh-connection"
@@ -999,10 +1229,18 @@ func (sc *scenario) discoveryOnlyObstacle(f msgFlags, d *domainFacts) (bool, str
 		return false, ""
 	}
 	kind := ""
+	quitScripted := false
 	for i := range d.MXs {
 		m := &d.MXs[i]
-		if m.Down || m.Greet != "" || m.DotCode != 250 || (m.StartTLS != "ok" && m.StartTLS != "none") {
+		if m.Down || m.Greet != "" || m.DotCode != 250 || (m.StartTLS != "ok" && m.StartTLS != "none") || m.FlakyFirst > 0 {
 			return false, ""
+		}
+		if st := m.Stages; st.Mail != "" || st.Rcpt != "" || st.DataCmd != "" || st.EhloTLS != "" || st.NoEHLO {
+			// another obstacle (or another TLS state than the STARTTLS fact predicts)
+			return false, ""
+		}
+		if m.Stages.Quit != "" {
+			quitScripted = true
 		}
 		if m.tlsaDiscovery() != "fail" {
 			return false, ""
@@ -1020,6 +1258,10 @@ func (sc *scenario) discoveryOnlyObstacle(f msgFlags, d *domainFacts) (bool, str
 			kind = "mixed"
 		}
 	}
+	// (A QUIT answered abnormally used to be excluded here: smtpconn.C.Close left the closed
+	// client attached and the recipient got a permanent error instead of the temporary one of
+	// the discovery failure - genuine defect, fixed by 35be4b5; judged like every other case now.)
+	_ = quitScripted
 	return true, kind
 }
 
@@ -1035,11 +1277,11 @@ func shapeOf(sc *scenario) string {
 			if m.TLSA == "records" {
 				au, da = m.daneVerdict()
 			}
-			fmt.Fprintf(&b, " | %s %s down=%v/%s rt=%v disc=%s usable=%v match=%v sts=%v dot=%d", m.StartTLS, m.Cert, m.Down, m.Greet, m.ReqTLS, m.tlsaDiscovery(), au, da, m.STSMatch, m.DotCode)
+			fmt.Fprintf(&b, " | %s %s down=%v/%s rt=%v disc=%s usable=%v match=%v sts=%v dot=%d st=%s flaky=%d", m.StartTLS, m.Cert, m.Down, m.Greet, m.ReqTLS, m.tlsaDiscovery(), au, da, m.STSMatch, m.DotCode, m.Stages.String(), m.FlakyFirst)
 		}
 	}
 	for _, f := range sc.Msgs {
-		fmt.Fprintf(&b, " > %s%v", f.String(), f.rcpts())
+		fmt.Fprintf(&b, " > %s%v%s%s", f.String(), f.rcpts(), f.QuarBy, f.OvrAt)
 	}
 	return b.String()
 }
@@ -1048,6 +1290,8 @@ const (
 	groupRandom   = 0
 	groupDirected = 1_000_000
 	nDirected     = 10
+	groupTeardown = 2_000_000
+	groupQueue    = 3_000_000
 )
 
 // directed scenarios: the histories the statement singles out (reuse of a
@@ -1248,6 +1492,127 @@ func directedScenario(k int, p *prng.R) *scenario {
 			sc.Msgs = append(sc.Msgs, msgFlags{Req: p.Chance(40, 100), Ovr: p.Chance(10, 100)})
 		}
 	}
+	// these families are about what happens around a transaction that would go
+	// through: keep the drawn QUIT / RSET behaviours, drop the refusals of
+	// MAIL / RCPT / DATA / EHLO
+	for di := range sc.Domains {
+		for i := range sc.Domains[di].MXs {
+			st := &sc.Domains[di].MXs[i].Stages
+			st.Mail, st.Rcpt, st.DataCmd, st.EhloTLS, st.NoEHLO = "", "", "", "", false
+		}
+	}
+	return sc
+}
+
+// teardownScenario (group T): a connection that must NOT carry the message is
+// given up - and the peer misbehaves while it is being given up. The candidate
+// that is tried last fails a connection-level requirement (minimum TLS level,
+// MTA-STS enforce, DANE mismatch / discovery failure, REQUIRETLS) or refuses
+// MAIL, so the target says QUIT; the QUIT is answered with 421 / 4xx / 5xx
+// while the TCP connection stays open, with garbage, not at all, or the server
+// just closes. An earlier candidate, if any, is unusable or fails in the same
+// way. 1-3 messages follow each other so that whatever is left of the
+// connection object (in the delivery, in the pool) meets the next message.
+// Nothing may ever arrive over such a connection.
+func teardownScenario(k int, p *prng.R) *scenario {
+	sc := genScenario(p)
+	sc.AllowOverride = true
+	d := &sc.Domains[0]
+	d.MXErr = false
+	sc.MTASTS, sc.DANE, sc.DNSSEC, sc.Local, sc.MinTLS, sc.MinMX = false, false, false, true, 0, 0
+	d.STS, d.MXAD = "testing", p.Chance(30, 100)
+
+	reqFirst, ovrFirst := false, false
+	// bad returns a candidate that fails a connection-level requirement
+	bad := func(i int, pref uint16) mxFacts {
+		m := genMX(p, 0, i, pref)
+		m.Down, m.Greet, m.AErr, m.DotCode, m.ReqTLS, m.STSMatch = false, "", false, 250, true, true
+		m.StartTLS, m.Cert, m.AAD, m.TLSAAD, m.TLSA, m.TLSARecs = "ok", "valid", true, true, "absent", nil
+		m.Stages = stageScripts{}
+		switch p.Intn(10) {
+		case 9: // STARTTLS advertised but refused with 454 (no fallback: the attempt ends there), TLS demanded
+			m.StartTLS = "reply454"
+			sc.MinTLS = 1 + p.Intn(2)
+		case 0, 1: // STARTTLS not offered (or stripped), TLS demanded
+			m.StartTLS = "none"
+			sc.MinTLS = 1 + p.Intn(2)
+		case 2: // untrusted certificate, authentication demanded
+			m.Cert = certKinds[1+p.Intn(3)]
+			sc.MinTLS = 2
+		case 3: // MTA-STS enforce: listed MX with a certificate that does not verify, or no TLS
+			sc.MTASTS, d.STS = true, "enforce"
+			if p.Bool() {
+				m.Cert = certKinds[1+p.Intn(3)]
+			} else {
+				m.StartTLS = "none"
+			}
+		case 4: // DANE: records that match nothing
+			sc.DANE = true
+			m.TLSA, m.TLSARecs = "records", []tlsaRec{{3, 1, 1, "stranger"}}
+		case 5: // DANE: discovery failure
+			sc.DANE = true
+			m.TLSA = "servfail"
+		case 6: // handshake failure or EHLO refused inside TLS: plaintext retry, TLS demanded
+			if p.Bool() {
+				m.StartTLS = "handshake"
+			} else {
+				m.Stages.EhloTLS = ehloTLSKinds[p.Intn(len(ehloTLSKinds))]
+			}
+			sc.MinTLS = 1 + p.Intn(2)
+		case 7: // REQUIRETLS message, MX without authenticated TLS (closed in connectionForDomain)
+			m.Cert = certKinds[1+p.Intn(3)]
+			reqFirst = true
+		case 8: // a TLS-Required: No message opens a plaintext connection (policies skipped): it is
+			// closed, not pooled, after the message; the next messages demand TLS
+			m.StartTLS = "none"
+			sc.MinTLS = 1 + p.Intn(2)
+			ovrFirst = true
+		}
+		m.Stages.Quit = quitKinds[p.Weighted(quitWeights)]
+		if p.Chance(30, 100) {
+			m.Stages.Rset = rsetKinds[p.Intn(len(rsetKinds))]
+		}
+		return m
+	}
+	switch p.Intn(5) {
+	case 0, 1, 2: // single candidate
+		d.MXs = []mxFacts{bad(0, 10)}
+	case 3: // the preferred candidate fails the policy and stays half-open, the last one cannot be reached
+		first := bad(0, 10)
+		second := genMX(p, 0, 1, 20)
+		second.Stages = stageScripts{}
+		makeUnusable(p, &second)
+		d.MXs = []mxFacts{first, second}
+	case 4: // both fail
+		d.MXs = []mxFacts{bad(0, 10), bad(1, 20)}
+	}
+	sc.Msgs = nil
+	for n := 1 + p.Weighted([]int{40, 35, 25}); n > 0; n-- {
+		sc.Msgs = append(sc.Msgs, msgFlags{Req: p.Chance(20, 100), Ovr: p.Chance(8, 100)})
+	}
+	if reqFirst {
+		sc.Msgs[0] = msgFlags{Req: true}
+	}
+	if ovrFirst {
+		sc.Msgs[0] = msgFlags{Ovr: true}
+		if len(sc.Msgs) == 1 {
+			sc.Msgs = append(sc.Msgs, msgFlags{})
+		}
+	}
+	if k%23 == 7 {
+		// the QUIT goes unanswered (every such QUIT costs the client's 5 s command
+		// time-out, hence by index and not by draw, and one message only): the
+		// candidate after which no other one connects
+		last := len(d.MXs) - 1
+		if last == 1 && d.MXs[1].unusable() {
+			last = 0
+		}
+		d.MXs[last].Stages.Quit = "ignored"
+		sc.Msgs = sc.Msgs[:1]
+		if ovrFirst {
+			sc.Msgs = append(sc.Msgs, msgFlags{})
+		}
+	}
 	return sc
 }
 
@@ -1308,19 +1673,14 @@ func TestVerif(t *testing.T) {
 				}
 			}
 			evs, problems := w.dataEvents(idx)
+			transcripts := w.transcripts()
 			w.close()
 			for _, pr := range problems {
 				c.Inconclusive(pr)
 			}
 
 			witness := func() map[string]any {
-				w.logMu.Lock()
-				lg := append([]string(nil), w.logs...)
-				w.logMu.Unlock()
-				if len(lg) > 120 {
-					lg = lg[len(lg)-120:]
-				}
-				return map[string]any{"scenario": sc, "outcomes": outs, "data_events": evs, "maddy_log": lg}
+				return map[string]any{"scenario": sc, "outcomes": outs, "data_events": evs, "maddy_log": w.witnessLog()}
 			}
 			multi := ""
 			if len(sc.Domains) > 1 {
@@ -1328,30 +1688,8 @@ func TestVerif(t *testing.T) {
 			}
 
 			// ---- rule 1: content only over allowed connections
-			for _, ev := range evs {
-				r.Count("data_events", 1)
-				if ev.TLS {
-					r.Count("data_events_over_tls", 1)
-				} else {
-					r.Count("data_events_plaintext", 1)
-				}
-				origin := connOrigin(sc, ev)
-				if origin != "fresh-connection" {
-					r.Count("data_events_on_reused_connection", 1)
-				}
-				f := sc.Msgs[ev.Msg]
-				r.Distinct("data_event_kinds", fmt.Sprintf("%s tls=%v %s", f.String(), ev.TLS, origin))
-				if len(ev.Unsat) == 0 {
-					continue
-				}
-				tl := "plaintext"
-				if ev.TLS {
-					tl = "tls"
-				}
-				sig := fmt.Sprintf("content-sent-over-forbidden-connection/%s/%s/%s/msg=%s%s", ev.Unsat[0], tl, origin, f.String(), multi)
-				c.Violation(sig, fmt.Sprintf("content of message %d (%s) reached %s over a %s connection (%s) although the policy in force is not satisfied: %v",
-					ev.Msg, f.String(), ev.MX, tl, origin, ev.Unsat), witness())
-			}
+			judgeDataEvents(r, c, sc, evs, func(msgFlags) string { return multi }, witness)
+			stageCounters(r, w.sc, transcripts)
 
 			// ---- rule 2: discovery failure => deferred (temporary), never permanent
 			for j, f := range sc.Msgs {
@@ -1374,7 +1712,11 @@ func TestVerif(t *testing.T) {
 						continue
 					}
 					deferOK := exterrors.IsTemporaryOrUnspec(o.err)
-					if only, kind := sc.discoveryOnlyObstacle(f, d); only {
+					only, kind := sc.discoveryOnlyObstacle(f, d)
+					if !only && kind == "quit-scripted" {
+						r.Count("observation_discovery_failure_and_quit_answered_abnormally(not judged)/error_class="+o.Class, 1)
+					}
+					if only {
 						r.Count("discovery_failures_judged", 1)
 						if !deferOK {
 							c.Violation("discovery-failure-not-deferred/"+kind+"/msg="+f.String()+multi,
@@ -1436,4 +1778,11 @@ func TestVerif(t *testing.T) {
 			return directedScenario(k, prng.New(r.Seed(), uint64(k), "c05-directed"))
 		})
 	}
+	nt := r.N(240, 6000)
+	for k := 0; k < nt; k++ {
+		run(groupTeardown+k, fmt.Sprintf("teardown-%d", k), func() *scenario {
+			return teardownScenario(k, prng.New(r.Seed(), uint64(k), "c05-teardown"))
+		})
+	}
+	queueGroup(t, r)
 }
